@@ -290,6 +290,27 @@ func mutateAll(tag string, base func() *HostileCase, ms []mutator, pairs bool) [
 	return out
 }
 
+func mutateTriples(tag string, base func() *HostileCase, ms []mutator) []*HostileCase {
+	var out []*HostileCase
+	for i := range ms {
+		for j := i + 1; j < len(ms); j++ {
+			for k := j + 1; k < len(ms); k++ {
+				c := base().clone()
+				func() {
+					defer func() { recover() }()
+					ms[i].f(c)
+					ms[j].f(c)
+					ms[k].f(c)
+					c.ID = fmt.Sprintf("%s-%s+%s+%s", tag, ms[i].name, ms[j].name, ms[k].name)
+					c.Class = "hostile"
+					out = append(out, c)
+				}()
+			}
+		}
+	}
+	return out
+}
+
 // reifyCases: representatives of every input class of C14.
 func reifyCases() []*HostileCase {
 	var out []*HostileCase
